@@ -51,7 +51,16 @@ def key_of(h):
 
 # ---------------------------------------------------------------- generation
 def is_nested(base):
-    return isinstance(base, str) and not base.isdigit()
+    return isinstance(base, str) and base[:1] in "ALBS"
+
+
+def is_select(base):
+    return isinstance(base, str) and base[:1] == "s"
+
+
+def select_tags(base):
+    m = int(base[1:])
+    return [i for i in range(8) if m >> i & 1]
 
 
 FLIP = {"A": "L", "L": "A", "B": "S", "S": "B"}
@@ -71,18 +80,24 @@ def values(base):
                       (k + inner[:-1] + str((int(inner[-1]) + 1) % 3), 1),        # the simple type at the bottom differs
                       (FLIP[k] + inner, 1),                                       # the outermost kind differs
                       (k + inner[1:], 1)]                                         # one level missing
+    if is_select(base):       # SELECT: values of every member type; then a value of a type outside the select
+        tags = select_tags(base)
+        bad = next(t for t in (3, 0, 2, 1, 4) if t not in tags)      # python-equal to a member where possible
+        return [(tags[0], 0), (tags[-1], 0), (tags[0], 1), (bad, 0)]
     base = int(base)
     if base == 5:     # NUMBER: INTEGER and REAL values are both of the base type; INTEGER(0) == REAL(0.0) is ONE element
         return [(0, 0), (2, 0), (0, 1), (3, 0)]
     # the ill-typed value is one that python considers EQUAL to a value of the base type where such a type exists:
     # INTEGER(0) == REAL(0.0) == False; a membership test taken before the type check would let it through
-    other = {0: 2, 1: 0, 2: 0, 3: 0, 4: 3}[base]
+    other = {0: 2, 1: 0, 2: 0, 3: 0, 4: 3, 6: 7, 7: 6}[base]
     return [(base, 0), (base, 1), (other, 0)]
 
 
 def good_tags(base):
     """the type tags whose values are of the (simple) base type"""
-    return [0, 2] if str(base) == "5" else [base]
+    if is_select(base):
+        return select_tags(base)
+    return [0, 2] if str(base) == "5" else [int(base)]
 
 
 NUMERIC = [0, 2, 3]        # INTEGER, REAL (whole numbers), BOOLEAN: python-equal across types for the same number
@@ -111,7 +126,7 @@ def alphabet(d, rich=True):
         top = 3 if hi is None else min(hi, 3)
         idx = list(range(0, top + 2))
     else:
-        third = [] if str(base) in ("3", "5") else [(base, 2)]    # BOOLEAN has two values only; NUMBER none of its own
+        third = [] if (str(base) in ("3", "5") or is_select(base)) else [(base, 2)]    # BOOLEAN: two values; NUMBER/SELECT: none of their own
         return [("add",) + v for v in vs + third]                   # a third value of the base type
     ops = [("set", i) + v for i in idx for v in vs]
     ops += [("get", i) for i in idx]
@@ -149,14 +164,15 @@ ILLEGAL = [("ARRAY", 2, 1, 0, 0, 0, 0), ("ARRAY", 1, None, 0, 0, 0, 0), ("ARRAY"
 def random_decl(rng):
     k = rng.choice(["ARRAY", "LIST", "LIST", "BAG", "SET"])
     r = rng.random()
-    base = rng.choice(DEEP) if r < 0.12 else rng.choice(NESTED + ["A5", "S5"]) if r < 0.35 else rng.randrange(6)
+    base = (rng.choice(DEEP) if r < 0.12 else rng.choice(NESTED + ["A5", "S5", "L6"]) if r < 0.35
+            else rng.choice([0, 1, 2, 3, 4, 5, 6, 7, "s5", "s3", "s65", "s192", "s13"]))
     if k == "ARRAY":
         lo = rng.choice([-3, -1, 0, 1, 1, 2, 5])
         hi = lo + rng.choice([0, 1, 2, 3, 5, 8])
     else:
         lo = rng.choice([0, 0, 1, 2, 4])
         hi = None if rng.random() < 0.35 else lo + rng.choice([0, 1, 2, 3, 6])
-    byname = int(rng.random() < 0.3 and not is_nested(base))
+    byname = int(rng.random() < 0.3 and isinstance(base, int) and base < 6)
     return (k, lo, hi, base, int(rng.random() < 0.5), int(rng.random() < 0.5), byname)
 
 
@@ -174,11 +190,11 @@ class Cursor:
             if is_nested(base):
                 t = rng.choice(values(base)[2:])[0]
             else:
-                t = rng.choice([x for x in range(5) if x not in good_tags(int(base))])   # often python-equal to a member
+                t = rng.choice([x for x in (0, 1, 2, 3, 4, 6, 7) if x not in good_tags(base)])   # often python-equal to a member
             return (t, payload(t))
         if is_nested(base):
             return (base, payload(base))
-        t = rng.choice(good_tags(int(base)))
+        t = rng.choice(good_tags(base))
         return (t, payload(t))
 
     def op(self):
@@ -553,14 +569,14 @@ def batches(ctx):
         yield "exhaustive-nested-3", nested(NESTED, 3)
         yield "exhaustive-nested-4", nested(NESTED[:2], 4, full=False)
     # values of another type that python considers equal to a member, offered to every mutator of every kind
-    ct_decls = [d for b in (0, 2, 3, 4, 1, 5)
+    ct_decls = [d for b in (0, 2, 3, 4, 1, 5, "s5", "s9")
                 for d in array_decls([(1, 2)], b) + list_decls([(0, None), (0, 2)], b) + coll_decls([(0, None), (0, 1), (0, 2)], b)]
     for depth in ((1, 2) if quick else (1, 2, 3)):
         yield f"exhaustive-cross-type-equal-{depth}", ((d, list(seq) + QUERIES) for d in ct_decls
                                                       for seq in itertools.product(cross_type_alphabet(d), repeat=depth))
     # LOGICAL and BOOLEAN base types (Unknown, False/True) through the ordinary alphabets
     for depth in (1, 2, 3):
-        yield f"exhaustive-logical-boolean-number-{depth}", (h for b in (3, 4, 5)
+        yield f"exhaustive-logical-boolean-number-enum-select-{depth}", (h for b in ((3, 4, 5, 6, "s3", "s65", "s13") if (depth < 3 or not quick) else (4, 5, "s13"))
                                                      for d in array_decls([(1, 2)], b) + list_decls([(0, None), (0, 2)], b) + coll_decls([(0, None), (0, 2)], b)
                                                      for h in exhaustive(d, depth))
     # the built-in functions of Builtin.py on every state reached by short histories
